@@ -311,6 +311,13 @@ def units(tier):
     wrap("C19.calc_PR[gases].P_of_Vm", unit_pressure)
     from props import c19_more as MM
     wrap("C19.gas_binary_parameters.k_ij==k_ji", MM.unit_binary_symmetric)
+    for w in ("gases", "prep"):
+        wrap("C19.calc_PR[%s].mixing_rule" % w, MM.unit_mixing_rule, w)
+    wrap("C19.tidy_gas_phase.partial_pressure_sum_is_per_gas_phase", MM.unit_tidy_gas_phase_pressure_sum)
+    from props import c01_init as _IN
+    PRM = {"pr_a", "pr_b", "pr_alpha", "pr_tk", "pr_p", "pr_phi", "pr_aa_sum2", "pr_si_f", "pr_in", "t_c", "p_c", "omega", "moles_x", "p_soln_x", "fraction_x"}
+    wrap("C19.phase_init.redefined_gas_starts_without_cached_EOS_parameters", lambda twin=False: _IN.unit_record_init("phase_init", "phase", "phase_ptr", twin=twin, relevant=PRM,
+         uid="C19.phase_init.redefined_gas_starts_without_cached_EOS_parameters"))
     wrap("C19.calc_gas_pressures.EOS_at_gas_phase_pressure", MM.unit_fixed_pressure_call)
     return us
 
